@@ -43,15 +43,30 @@ func runCLI(args ...string) (string, error) {
 	return out.String(), err
 }
 
+// throughLink: the next repeat() reaches the file through a symbolic link.
+var throughLink bool
+
 func repeat(c *runner.Ctx, src []byte, desc string, annotated int, viaCLI bool, runs int) {
 	dir := filepath.Join(scratch, fmt.Sprintf("w%d", c.Worker))
 	os.MkdirAll(dir, 0755)
 	path := filepath.Join(dir, "x.pb.go")
-	os.WriteFile(path, src, 0644)
+	os.Remove(path)
+	if throughLink {
+		// the generated file is reached through a symbolic link (api.pb.go -> gen/v1.go)
+		os.MkdirAll(filepath.Join(dir, "gen"), 0755)
+		os.WriteFile(filepath.Join(dir, "gen", "v1.go"), src, 0644)
+		os.Symlink(filepath.Join("gen", "v1.go"), path)
+		defer os.Remove(path)
+	} else {
+		os.WriteFile(path, src, 0644)
+	}
 	var prev []byte
 	via := "library"
 	if viaCLI {
 		via = "cli -f"
+	}
+	if throughLink {
+		via += " through a symbolic link"
 	}
 	for r := 1; r <= runs; r++ {
 		if viaCLI {
@@ -267,6 +282,14 @@ func run(c *runner.Ctx) {
 			}
 			src, n := mkFile([]inject.FieldVariant{f, g}, (i+j)%2 == 0)
 			repeat(c, src, f.Shape+"+"+g.Shape, n, false, 4)
+			if (i+j)%7 == 3 {
+				throughLink = true
+				repeat(c, src, f.Shape+"+"+g.Shape, n, false, 3)
+				if cli != "" {
+					repeat(c, src, f.Shape+"+"+g.Shape, n, true, 2)
+				}
+				throughLink = false
+			}
 			if (i+j)%5 == 2 { // CRLF line endings / byte-order mark
 				crlf := bytes.ReplaceAll(src, []byte("\n"), []byte("\r\n"))
 				repeat(c, crlf, f.Shape+"+"+g.Shape+" [CRLF]", n, false, 3)
